@@ -1173,3 +1173,100 @@ package sio
 //@   callsite (*serverSocket).newBroadcastOperator skip
 //@     updateafter base = result
 //@   ensures result == base [C04.sender.broadcast]
+
+// ---------------------------------------------------------------------------------------------
+// C01. Dispatch: an incoming EVENT goes to exactly the handlers registered for its name (eventHandlers.getAll: C18
+// contract), each handler's onEvent once, in registration order, with this packet's header and decoder.
+//@ func (*serverSocket).onPacket
+//@   opt safety off
+//@   requires header != nil
+//@   ghost hs []*eventHandler = nil
+//@   ghost looked int = 0
+//@   ghost calls int = 0
+//@   ghost acks int = 0
+//@   callsite (*eventHandlerStore).getAll skip
+//@     requires recv == s.eventHandlers && arg0 == eventName && (header.Type == parser.PacketTypeEvent || header.Type == parser.PacketTypeBinaryEvent) [C01.dispatch.by.name.server]
+//@     update looked = looked + 1
+//@     updateafter hs = result
+//@   callsite (*serverSocket).onEvent skip
+//@     requires looked == 1 && rangeindex == calls && calls < len(hs) && arg0 == hs[calls] && arg1 == header && arg2 == decode [C01.dispatch.each.handler.once.server]
+//@     update calls = calls + 1
+//@   callsite (*serverSocket).onAck skip
+//@     requires (header.Type == parser.PacketTypeAck || header.Type == parser.PacketTypeBinaryAck) && arg0 == header && arg1 == decode [C01.dispatch.ack.server]
+//@     update acks = acks + 1
+//@   callsite (*serverSocket).onDisconnect skip
+//@   loop 0 invariant calls == rangeindex + 1 && looked == 1 && rangelen == len(hs)
+//@   ensures (old(header.Type) == parser.PacketTypeEvent || old(header.Type) == parser.PacketTypeBinaryEvent) ==> looked == 1 && calls == len(hs) && acks == 0 [C01.dispatch.all.handlers.server]
+//@   ensures (old(header.Type) == parser.PacketTypeAck || old(header.Type) == parser.PacketTypeBinaryAck) ==> acks == 1 && calls == 0 [C01.dispatch.ack.once.server]
+
+//@ func (*clientSocket).onPacket
+//@   opt safety off
+//@   requires header != nil
+//@   ghost hs []*eventHandler = nil
+//@   ghost looked int = 0
+//@   ghost calls int = 0
+//@   ghost acks int = 0
+//@   callsite (*eventHandlerStore).getAll skip
+//@     requires recv == s.eventHandlers && arg0 == eventName && (header.Type == parser.PacketTypeEvent || header.Type == parser.PacketTypeBinaryEvent) [C01.dispatch.by.name.client]
+//@     update looked = looked + 1
+//@     updateafter hs = result
+//@   callsite (*clientSocket).onEvent skip
+//@     requires looked == 1 && rangeindex == calls && calls < len(hs) && arg0 == hs[calls] && arg1 == header && arg2 == decode [C01.dispatch.each.handler.once.client]
+//@     update calls = calls + 1
+//@   callsite (*clientSocket).onAck skip
+//@     requires (header.Type == parser.PacketTypeAck || header.Type == parser.PacketTypeBinaryAck) && arg0 == header && arg1 == decode [C01.dispatch.ack.client]
+//@     update acks = acks + 1
+//@   callsite (*clientSocket).onConnect skip
+//@   callsite (*clientSocket).onConnectError skip
+//@   callsite (*clientSocket).onDisconnect skip
+//@   loop 0 invariant calls == rangeindex + 1 && looked == 1 && rangelen == len(hs)
+//@   ensures (old(header.Type) == parser.PacketTypeEvent || old(header.Type) == parser.PacketTypeBinaryEvent) ==> looked == 1 && calls == len(hs) && acks == 0 [C01.dispatch.all.handlers.client]
+//@   ensures (old(header.Type) == parser.PacketTypeAck || old(header.Type) == parser.PacketTypeBinaryAck) ==> acks == 1 && calls == 0 [C01.dispatch.ack.once.client]
+
+// The handler is handed ALL the values that were decoded for its parameters (arguments equal to those emitted).
+//@ func (*clientSocket).callEvent
+//@   opt safety off
+//@   requires handler != nil && header != nil
+//@   ghost called int = 0
+//@   callsite (*clientSocket).pid skip
+//@   callsite (*clientSocket).setLastOffset skip
+//@   callsite (*eventHandler).ack skip
+//@   callsite dismantleAckFunc skip
+//@   callsite FuncOf skip
+//@   callsite MakeFunc skip
+//@   callsite (*clientSocket).onError skip
+//@   callsite (*eventHandler).call skip
+//@     requires arr(arg0) == arr(old(values)) && off(arg0) == off(old(values)) && len(arg0) == old(len(values)) [C01.dispatch.args.intact.client]
+//@     update called = called + 1
+//@   ensures called == 1 [C01.dispatch.handler.called.once.client]
+
+// Emit: one Encode of (EVENT, this namespace, [name, args...] in order; a trailing callback becomes the ack id) and the
+// produced frames go, unchanged and once, to the connection.
+//@ func (*serverSocket).emit
+//@   opt safety off
+//@   requires s.nsp != nil && s.server != nil
+//@   panics_if true
+//@   ghost enc int = 0
+//@   ghost encerr bool = false
+//@   ghost frames [][]byte = nil
+//@   ghost sent int = 0
+//@   ghost stripped int = 0
+//@   callsite TypeOf skip
+//@   callsite Kind skip
+//@   callsite (*serverSocket).registerAckHandler skip
+//@     update stripped = 1
+//@   callsite (*serverSocket).onError skip
+//@   callsite Adapter.Broadcast skip
+//@     requires arg0 != nil && arg0.Type == parser.PacketTypeEvent && arg0.Namespace == s.nsp.name [C01.emit.header.recovery]
+//@     requires len(arg1) == len(_v) + 1 - stripped && unbox(arg1[0], string) == eventName && (forall k int :: 0 <= k && k < len(_v) - stripped ==> arg1[k+1] == old(_v[k])) [C01.emit.args.in.order.recovery]
+//@     update sent = sent + 1
+//@   callsite Encode skip
+//@     requires arg0 != nil && arg0.Type == parser.PacketTypeEvent && arg0.Namespace == s.nsp.name && (stripped == 0 ==> arg0.ID == nil) && (stripped == 1 ==> arg0.ID != nil) [C01.emit.header]
+//@     requires len(v) == len(_v) + 1 - stripped && unbox(v[0], string) == eventName && (forall k int :: 0 <= k && k < len(_v) - stripped ==> v[k+1] == old(_v[k])) [C01.emit.args.in.order]
+//@     update enc = enc + 1
+//@     updateafter encerr = result1 != nil
+//@     updateafter frames = result0
+//@   callsite (*serverConn).sendBuffers skip
+//@     requires enc == 1 && !encerr && arg0 == frames && sent == 0 [C01.emit.frames.unchanged]
+//@     update sent = sent + 1
+//@   ensures sent <= 1 && (enc == 1 && !encerr ==> sent == 1) [C01.emit.once]
